@@ -8,6 +8,10 @@ from pathlib import Path
 
 VERIF = Path(__file__).resolve().parent.parent
 NOTES = {
+    "C01-r3change1": "missed at first: the plans were built from separate command objects and the recorded logs were cut out of the FINISHED straight run; the plan generator now repeats THE SAME Operation object as `xN <op>` does in a plan text (preferably RESOLVE of a key-down skill), and a third resume mode records the logs when the run is at the cut (another engine runs the first k commands and its logs are dumped then)",
+    "C10-r3change1": "missed at first: the views were only read going forward; after each plan the engine is rolled back (after the views were read), and what the viewer shows is compared with a fresh engine that ran the surviving commands; skills listed valid there are used on a fork",
+    "C13-r3change1": "missed at first: reports were only taken from forward runs; the report after rollback + other commands is now compared with the report of a fresh engine that executed the surviving commands",
+    "C13-r3change2": "missed at first: the best window was compared through the public method only on runs with (mostly) integral clocks; synthetic runs now have fractional clocks and window lengths exactly on, just below and just above differences of (truncated) clocks",
     "C02-r3change2": "missed at first (the plans do not reach a lightning hit with zero frost stacks while the shock is active; it is the mechanism of C08-change1): the check now asks the effect translator which reducers / views READ a module-level mutable object (none on the unchanged tree), replays their harvested calls and the states reached when time passes, and compares the snapshot of all module / class level state around them",
     "C07-r3change1": "missed at first: added time-advance forks (one long elapse from reached checkpoints so that buffs run out while cooldowns still run, then every skill pressed once on its own copy of the store); also rejected by the C08 effect checker (a query method that assigns)",
     "C07-r3change2": "MISSED by ./check C07 quick (needs Order swords, Storm cast and run out in one elapse step); a pydantic validator of a state class that writes an entity was a blind spot of the effect model too: validators / serializers / computed fields / __init__ / model_post_init of every entity, state and component class are now lowered and checked like methods (gen_effects.lower_hooks), the harvest replay rebuilds each state object and compares the entities, and the targeted search also visits the states reached when time passes; caught by `./check C08 quick` with a failing input",
